@@ -264,9 +264,12 @@ def cubic_spline(
             )
         )
 
+    # The spline above maps the unit interval onto itself: account for the rescaling to the box.
     if inverse:
         outputs = outputs * (right - left) + left
+        logabsdet = logabsdet + math.log(right - left) - math.log(top - bottom)
     else:
         outputs = outputs * (top - bottom) + bottom
+        logabsdet = logabsdet + math.log(top - bottom) - math.log(right - left)
 
     return outputs, logabsdet
